@@ -56,14 +56,14 @@ def _rho_data(nprng, nrho, n, scale=1.0):
     return rho
 
 
-def _tiny_cider_grids(mol, nrad, nang, lmax, prune):
+def _tiny_cider_grids(mol, nrad, nang, lmax, prune, sort_grids=True):
     from ciderpress.pyscf.gen_cider_grid import CiderGrids
 
     g = CiderGrids(mol)  # only the default lmax works in CiderGrids; lmax is varied on the generator
     g.atom_grid = (nrad, nang)
     g.prune = prune
     g.verbose = 0
-    g.build()
+    g.build(sort_grids=sort_grids)  # (unsorted: points stay grouped by atom, identity index map)
     return g
 
 
@@ -85,6 +85,7 @@ def draw_nldf_params(rng):
         "dseed": rng.below(10**6),
         # exponent formula of the plan stated by the caller (by default it follows the plan type)
         "gen_formula": rng.choice([None, None, None, "etb", "zexp"]),
+        "sort_grids": bool(rng.chance(0.8)),
     }
 
 
@@ -97,7 +98,7 @@ def _make_nldfgen(p):
     rng = Rng(derive("omp-nldf", p["sseed"]))
     st = zoo.make_settings(p["kind"], rng, normalizer=False)
     mol = zoo.make_mol(p["mol"], "sto-3g")
-    grids = _tiny_cider_grids(mol, p["nrad"], p["nang"], p["lmax"], nwchem_prune if p["prune"] else None)
+    grids = _tiny_cider_grids(mol, p["nrad"], p["nang"], p["lmax"], nwchem_prune if p["prune"] else None, sort_grids=p.get("sort_grids", True))
     gen = PyscfNLDFGenerator.from_mol_and_settings(
         mol,
         grids.grids_indexer,
@@ -343,6 +344,11 @@ def draw_plan_params(rng):
         "amax": rng.choice([3e4, 3e4, 3e4, 300.0, 30.0, 4.0]),
         # grid points of an atomic grid come ordered by radius: the large exponents sit together
         "rho_order": rng.choice(["random", "random", "by_density", "by_density_rev"]),
+        # spline plans: a spline table denser than the exponent ladder; plan-level density /
+        # exponent thresholds other than the defaults
+        "spline_mul": rng.choice([None, None, 2, 3]),
+        "plan_rhocut": rng.choice([None, None, 1e-8, 1e-5]),
+        "plan_expcut": rng.choice([None, None, 1e-6, 1e-3]),
     }
 
 
@@ -368,6 +374,9 @@ def wl_plan_coefs(p):
         alpha_formula=p["formula"],
         raise_large_expnt_error=not p["smooth"],
         use_smooth_expnt_cutoff=p["smooth"],
+        **({"spline_size": p["spline_mul"] * p["nalpha"] + 1} if (p.get("spline_mul") and p["plan_type"] == "spline") else {}),
+        **({"rhocut": p["plan_rhocut"]} if p.get("plan_rhocut") else {}),
+        **({"expcut": p["plan_expcut"]} if p.get("plan_expcut") else {}),
     )
     nprng = np.random.default_rng(p["dseed"])
     n = p["n"]
